@@ -373,7 +373,7 @@ def finish(ctx, level="proof"):
         "violations": len(ctx.violations),
     }
     ctx.coverage.setdefault("trusted_base", TRUSTED_COMMON)
-    if not ctx.replay:
+    if not ctx.replay and not os.environ.get("VERIF_NO_EVIDENCE"):
         os.makedirs(os.path.join(VERIF, "evidence"), exist_ok=True)
         tmp = os.path.join(VERIF, "evidence", ".%s.%d.tmp" % (ctx.prop, os.getpid()))
         open(tmp, "w").write(json.dumps(ev, indent=1, default=str))
